@@ -76,6 +76,24 @@ def d1_bool(W, L=None, B=None):
                 yield T("If", a, b, c)
 
 
+def concat_n(W):
+    """n-ary Concat of slices: all triples (and quadruples at W <= 2) of {Extract(hi,lo,v) : v in x,y} + 1-bit constants.
+    (the Concat simplifier merges adjacent Extracts of one variable; seeded defect C01/1 needed a third operand between)"""
+    x, y = BVS("x", W), BVS("y", W)
+    parts = [T("Extract", v, ints=(hi, lo)) for v in (x, y) for hi in range(W) for lo in range(hi + 1)]
+    parts += [BVV(0, 1), BVV(1, 1), x]
+    for a in parts:
+        for b in parts:
+            for c in parts:
+                yield T("Concat", a, b, c)
+    if W <= 2:
+        for a in parts:
+            for b in parts:
+                for c in parts:
+                    for d in parts:
+                        yield T("Concat", a, b, c, d)
+
+
 def d2(W, L=None, B=None, inner_bv=None, inner_bool=None):
     """depth-2 terms: one operator applied to (depth-1 term, leaf) in every position"""
     L = L or bv_leaves(W)
@@ -202,6 +220,12 @@ def rule_instances(rng: random.Random, widths=(1, 2, 3, 4, 8, 16, 32, 64), per=6
                 out.append(T("Concat", T("Extract", x, ints=(W - 1, hi)), T("Extract", x, ints=(hi - 1, 0))) if hi > 0 else
                            T("Concat", x, x))
                 out.append(T("Concat", T("Extract", x, ints=(W - 1, lo + 0)), BVV(0, 1)))
+                if hi > 0:
+                    out.append(T("Concat", T("Extract", x, ints=(W - 1, hi)), y, T("Extract", x, ints=(hi - 1, 0))))
+                    out.append(T("Concat", T("Extract", x, ints=(W - 1, hi)), T("Extract", x, ints=(hi - 1, 0)), y))
+                    out.append(T("Concat", y, T("Extract", x, ints=(W - 1, hi)), a, T("Extract", x, ints=(hi - 1, 0))))
+                    out.append(T("Concat", T("Extract", x, ints=(W - 1, hi)), T("Extract", y, ints=(hi - 1, 0)),
+                                 T("Extract", x, ints=(hi - 1, 0))))
                 for cmp in ("__eq__", "__ne__"):
                     kk = BVV(rng.getrandbits(hi + 1), hi + 1)
                     out.append(T(cmp, T("Extract", T("Concat", z0, x), ints=(hi, 0)), kk))
